@@ -124,7 +124,7 @@ def run(rep, tier, args, prop):
         return
     mc = rep.model_check("MC_Exec", "MC_Exec_%s%s.cfg" % (prop, "" if tier == "quick" else "_thorough"),
                          name="MC_Exec_" + prop, workers=8,
-                         coverage=(tier == "thorough"), timeout=1500)
+                         coverage=False, timeout=1500 if tier == "quick" else 5000)
     if mc.violated:
         vlib.log("model violates %s; the implementation trace decides" % mc.violated)
     hbin = os.path.join(vlib.cargo_build("h-exec"), "h-exec")
